@@ -367,7 +367,7 @@ func judge(c *lib.Ctx, name string, recs []rec) error {
 		if hi > len(recs) {
 			hi = len(recs)
 		}
-		bad, err := lib.Judge(c, name, c.SpecDir("StringLit"), "JudgeComplete", recs[lo:hi], c.Pick(4, 8), 10*time.Minute)
+		bad, err := lib.Judge(c, name, c.SpecDir("StringLit"), "JudgeComplete", recs[lo:hi], c.Pick(4, 8), 45*time.Minute)
 		if err != nil {
 			return err
 		}
